@@ -233,6 +233,57 @@ pub fn fam_bounds(o: &mut Rep, seed: u64) {
         let sp = SO3StateSpace::new(b).unwrap();
         bounds_ops(o, seed, &so3_kit(&sp, &mut g, &lab), &same_so3, true);
     }
+    compound_bounds(o, seed);
+}
+
+/// C11 on compound / SE(2) / SE(3) spaces: enforce makes every component canonical and accepted, also components that are
+/// in bounds but NOT canonical (an angle written with an extra turn, a quaternion of norm 2, the zero quaternion)
+fn compound_bounds(o: &mut Rep, seed: u64) {
+    let mut g = Lcg(seed.wrapping_add(311));
+    // bounded R^2 and SO(2), unbounded SO(3) (a bounded cone would only re-report D16)
+    let lay = vec![Kind::R(2), Kind::So2, Kind::So3];
+    let mkspace = || -> Vec<Box<dyn AnyStateSpace>> { vec![Box::new(RealVectorStateSpace::new(2, Some(vec![(-2.0, 2.0), (-2.0, 2.0)])).unwrap()), Box::new(SO2StateSpace::new(Some((-0.5, 2.0))).unwrap()), Box::new(SO3StateSpace::new(None).unwrap())] };
+    let parts = mkspace();
+    let sp = CompoundStateSpace::new(mkspace(), vec![1.0, 0.5, 2.0]);
+    let mut states: Vec<CompoundState> = (0..10).map(|_| CompoundState::new(lay.iter().map(|&k| comp_state(k, &mut g)).collect())).collect();
+    states.push(CompoundState::new(vec![Box::new(RealVectorState::new(vec![0.5, -0.5])), Box::new(SO2State { value: 2.0 * PI + 0.5 }), Box::new(SO3State::new(0.0, 0.0, 0.0, 2.0))]));
+    states.push(CompoundState::new(vec![Box::new(RealVectorState::new(vec![7.0, -9.0])), Box::new(SO2State { value: -17.85 }), Box::new(SO3State::new(0.0, 0.0, 0.0, 0.0))]));
+    states.push(CompoundState::new(vec![Box::new(RealVectorState::new(vec![2.0, -2.0])), Box::new(SO2State { value: 1.0 - 4.0 * PI }), Box::new(SO3State::new(0.3, 0.0, 0.0, 0.1))]));
+    for a in &states {
+        let mut e = a.clone();
+        sp.enforce_bounds(&mut e);
+        let tag = format!("C11 compound R^2 x SO2 x SO3 state={:?}", a.components);
+        if !sp.satisfies_bounds(&e) { o.report("bounds", seed, format!("{}: enforce_bounds gives {:?} which satisfies_bounds rejects", tag, e.components)); }
+        for i in 0..lay.len() {
+            if !comp_canonical(lay[i], &*e.components[i]) { o.report("bounds", seed, format!("{}: after enforce_bounds component {} is {:?}, not canonical", tag, i, e.components[i])); }
+            let mut r = a.components[i].clone();
+            parts[i].enforce_bounds_dyn(&mut *r);
+            if !comp_eq(lay[i], &*e.components[i], &*r) { o.report("bounds", seed, format!("{}: after enforce_bounds component {} is {:?}, the component space gives {:?}", tag, i, e.components[i], r)); }
+        }
+        let mut e2 = e.clone();
+        sp.enforce_bounds(&mut e2);
+        for i in 0..lay.len() { if !comp_eq(lay[i], &*e.components[i], &*e2.components[i]) && comp_ref(lay[i], &*e.components[i], &*e2.components[i]) > 1.0e-9 { o.report("bounds", seed, format!("{}: enforcing twice changes component {}: {:?} then {:?}", tag, i, e.components[i], e2.components[i])); } }
+    }
+    let mut rng = StdRng::seed_from_u64(seed);
+    for _ in 0..30 { match sp.sample_uniform(&mut rng) { Ok(x) => { if !sp.satisfies_bounds(&x) { o.report("bounds", seed, format!("C11 compound R^2 x SO2 x SO3: sample {:?} violates the bounds", x.components)); } } Err(e) => { o.report("bounds", seed, format!("C11 compound: sample_uniform failed: {:?}", e)); break; } } }
+    // SE(2) / SE(3): a non-canonical rotation part is canonicalised by enforce_bounds
+    let se2 = SE2StateSpace::new(1.0, Some(vec![(-2.0, 2.0), (-2.0, 2.0), (-0.5, 2.0)])).unwrap();
+    for &(x, y, t) in &[(0.5, 0.5, 2.0 * PI + 0.5), (9.0, -9.0, -17.85), (0.0, 0.0, 7.0)] {
+        let mut st = SE2State::new(x, y, 0.0);
+        // build the raw angle directly (SE2State::new would canonicalise it)
+        st.0.components[1] = Box::new(SO2State { value: t });
+        se2.enforce_bounds(&mut st);
+        let yaw = st.get_yaw();
+        if !(yaw >= -PI && yaw <= PI) || !se2.satisfies_bounds(&st) { o.report("bounds", seed, format!("C11 SE2: enforce_bounds of yaw {:?} gives {:?} (not canonical or rejected)", t, yaw)); }
+    }
+    let se3 = SE3StateSpace::new(1.0, Some(vec![(-2.0, 2.0), (-2.0, 2.0), (0.0, 5.0)])).unwrap();
+    for q in [SO3State::new(0.0, 0.0, 0.0, 2.0), SO3State::new(0.0, 0.0, 0.0, 0.0), SO3State::new(0.3, 0.0, 0.0, 0.1)] {
+        let mut st = SE3State::new(9.0, 0.0, -1.0, q.clone());
+        se3.enforce_bounds(&mut st);
+        let r = st.get_rotation();
+        let n = (r.x * r.x + r.y * r.y + r.z * r.z + r.w * r.w).sqrt();
+        if (n - 1.0).abs() > 1.0e-9 || !se3.satisfies_bounds(&st) { o.report("bounds", seed, format!("C11 SE3: enforce_bounds of rotation ({:?},{:?},{:?},{:?}) gives norm {} (not a unit quaternion or rejected)", q.x, q.y, q.z, q.w, n)); }
+    }
 }
 
 pub fn fam_ctor(o: &mut Rep, seed: u64) {
@@ -384,10 +435,13 @@ fn compound_family(o: &mut Rep, seed: u64) {
         }
     } } }
     // SE(2) / SE(3) behave as the compound of translation and rotation with weights (1, w)
-    for &w in &[0.0, 1.0e-9, 0.5, 1.0, 7.0, 1.0e6] { for &bounded in &[false, true] {
-        let se2 = SE2StateSpace::new(w, if bounded { Some(vec![(-2.0, 2.0), (-3.0, 1.0), (-1.0, 2.0)]) } else { None }).unwrap();
+    for &w in &[0.0, 1.0e-9, 0.5, 1.0, 7.0, 1.0e6] { for &bcase in &[0usize, 1, 2, 3] {
+        let bounded = bcase > 0;
+        // yaw bounds: ordinary, wide and off-centre (clipped to (-PI, 1) by the SO(2) constructor), half-infinite
+        let yaw = [(-1.0, 2.0), (-1.0, 2.0), (-10.0, 1.0), (f64::NEG_INFINITY, 0.0)][bcase];
+        let se2 = SE2StateSpace::new(w, if bounded { Some(vec![(-2.0, 2.0), (-3.0, 1.0), yaw]) } else { None }).unwrap();
         let r2 = RealVectorStateSpace::new(2, if bounded { Some(vec![(-2.0, 2.0), (-3.0, 1.0)]) } else { None }).unwrap();
-        let so2 = SO2StateSpace::new(if bounded { Some((-1.0, 2.0)) } else { None }).unwrap();
+        let so2 = SO2StateSpace::new(if bounded { Some(yaw) } else { None }).unwrap();
         let se3 = SE3StateSpace::new(w, if bounded { Some(vec![(-2.0, 2.0), (-3.0, 1.0), (0.0, 5.0)]) } else { None }).unwrap();
         let r3 = RealVectorStateSpace::new(3, if bounded { Some(vec![(-2.0, 2.0), (-3.0, 1.0), (0.0, 5.0)]) } else { None }).unwrap();
         let so3 = SO3StateSpace::new(None).unwrap();
